@@ -5,6 +5,7 @@ Range::contains, so their behaviour depends on the endpoints only through their 
 enumerate every weak ordering of the four endpoints (representative integers 0..4) and evaluate the loop body with
 the abstract interpreter - a complete decision table over the finite ordering domain, not a sample of inputs."""
 import itertools
+import re
 
 from .. import absint as A
 from .. import tree as T
@@ -304,6 +305,144 @@ def union_rule(ctx, res, rule):
                         "(overlapping ranges are then deleted twice over the overlap)" % bad3, loc=loc))
     else:
         res.holds(rule, fn, "three-ranges", "%d sorted triples: result = union, no two ranges overlap" % rows3)
+    # the frame the two enumerations assume: every index from 1 is read, and exactly the first write_cursor + 1 entries are kept
+    pname, wname = b["params"][0]["pat"]["name"], wlets[0]["pat"]["name"]
+    it = T.render(loop["iter"])
+    lens = {s_["pat"]["name"] for s_ in T.nodes(b["tree"], "let") if s_["pat"]["p"] == "bind" and s_.get("init") is not None and T.render(s_["init"]) == "%s.len()" % pname
+            and "Mut" not in s_["pat"].get("mode", "")}
+    if it in {"1..%s.len()" % pname} | {"1..%s" % l_ for l_ in lens}:
+        res.holds(rule, fn, "frame:loop", it)
+    else:
+        res.add(Finding(rule, fn, "frame:loop", "the merge loop runs over `%s`, not over every index from 1 (1..%s.len()): a range that is never read is neither merged nor kept" % (it, pname), loc=T.loc(loop)))
+    blk = T.peel(b["tree"])
+    while blk.get("k") == "blockexpr":
+        blk = blk["block"]
+    stmts = [s_ for s_ in blk.get("stmts", [])] + ([{"k": "expr", "e": blk["tail"]}] if blk.get("tail") is not None else [])
+    after = []
+    seen = False
+    for s_ in stmts:
+        if any(x is loop for x in T.nodes(s_)):
+            seen = True
+            continue
+        if seen:
+            after.append(T.render(s_["e"]) if s_.get("k") == "expr" else T.render(s_.get("init") or {"k": "lit", "v": ["?"]}))
+    want_t = "%s.truncate((%s + 1))" % (pname, wname)
+    if after == [want_t]:
+        res.holds(rule, fn, "frame:truncate", want_t)
+    else:
+        res.add(Finding(rule, fn, "frame:truncate", "after the merge loop the list is finished by %s, not by `%s`: a merged range is dropped or a stale one kept" % (after, want_t), loc=loc))
+
+
+def _split_top(s_):
+    """split `a, b` at the top-level comma"""
+    depth = 0
+    for i, ch in enumerate(s_):
+        if ch in "([{":
+            depth += 1
+        elif ch in ")]}":
+            depth -= 1
+        elif ch == "," and depth == 0:
+            return s_[:i].strip(), s_[i + 1:].strip()
+    return s_, ""
+
+
+def insertion_rule(ctx, res, rule):
+    """merge_ranges inserts each new range into the list so that the list stays sorted by start (merge_overlapped_ranges then
+    only has to look at neighbours): the backward search stops at - and only at - an entry that starts before the new range
+    (or at index 0), and the new range goes directly behind that entry (to the front if there is none)."""
+    P = ctx.lib
+    b = P.fn("formatter::merge_ranges")
+    fn = fshort(b)
+    loc = T.loc(b["tree"])
+    inner = [l for l in T.nodes(b["tree"], "loop") if "while_cond" not in l]
+    rpos = [x for x in T.nodes(b["tree"], "mcall") if x["name"] == "rposition" and len(x["args"]) == 1 and T.peel(x["args"][0]).get("k") == "closure"]
+    if not inner and len(rpos) == 1:
+        # the same search as a library call: `ranges[..hi].iter().rposition(|r| r.start < new.start).map_or(0, |i| i + 1)`
+        clo = T.peel(rpos[0]["args"][0])
+        I = A.Interp(P)
+        I.lazy_locals = True
+
+        def runp(J):
+            env = {}
+            J.match_pat(clo["params"][0]["pat"], A.Sym("entry"), env)
+            return J.ev(clo["body"], env)
+        try:
+            outs = I.explore(runp)
+        except A.Cannot as e:
+            res.cannot(rule, fn, "search", str(e), loc)
+            return
+        okp = True
+        for o in outs:
+            rel = None
+            for k, v in o["decisions"].items():
+                if re.match(r"^ord\(entry\.start, \w+\.start\)$", k):
+                    rel = v
+                if re.match(r"^ord\(\w+\.start, entry\.start\)$", k):
+                    rel = {"<": ">", ">": "<", "=": "="}[v]
+            if (A.show(o["value"]) == "true") != (rel == "<") and not (rel == "=" ):
+                okp = False
+        cons = T.render(rpos[0]) in T.render(b["tree"]) and re.search(r"\.rposition\(.*\)\.map_or\(0, \|\w+\| \(\w+ \+ 1\)\)", T.render(b["tree"])) is not None
+        if okp and cons:
+            res.holds(rule, fn, "search", "rposition(entry starts before the new range) + 1, or 0")
+        else:
+            res.add(Finding(rule, fn, "search", "the insertion position is not `last entry that starts before the new range` + 1 (or 0): the list is no longer sorted by start", loc=loc))
+        return
+    if len(inner) != 1:
+        res.cannot(rule, fn, "search", "the backward search loop for the insertion position was not found (%d plain loops)" % len(inner), loc)
+        return
+    I = A.Interp(P)
+    I.lazy_locals = True
+    try:
+        outs = I.explore(lambda J: J.ev(inner[0]["body"], {}))
+    except A.Cannot as e:
+        res.cannot(rule, fn, "search", str(e), loc)
+        return
+    bad = None
+    n = 0
+    for o in outs:
+        d = o["decisions"]
+        rel = None            # new_range.start against the examined entry's start
+        for k, v in d.items():
+            m_ = re.match(r"^ord\((\w+)\.start, (\w+)\[(\w+)\]\.start\)$", k)
+            if m_:
+                rel = v
+            m_ = re.match(r"^ord\((\w+)\[(\w+)\]\.start, (\w+)\.start\)$", k)
+            if m_:
+                rel = {"<": ">", ">": "<", "=": "="}[v]
+        at0 = any(re.match(r"^ord\((0, \w+|\w+, 0)\)$", k) and v == "=" for k, v in d.items())
+        val = A.show(o["value"]) if o["value"] is not None else None
+        if o["exit"] == "break" and val and val.startswith("Some("):
+            if rel != ">" and not (rel == "=" ):
+                bad = "stops at an entry although the new range does not start behind it (relation of the starts: %s)" % rel
+        elif o["exit"] == "break":
+            if not at0 or rel == ">":
+                bad = "gives up (front insertion) although %s" % ("the examined entry starts before the new range" if rel == ">" else "index 0 has not been reached")
+        elif o["exit"] in ("fall", "continue"):
+            steps = [A.show(e[2]) for e in o["effects"] if e[0] == "assign"]
+            if rel == ">" or len(steps) != 1 or not re.match(r"^\(\w+ - 1\)$", steps[0]):
+                bad = "goes on %s" % ("past an entry that starts before the new range" if rel == ">" else "without stepping back by one (%s)" % steps)
+        else:
+            bad = "leaves the search by `%s`" % o["exit"]
+        if bad:
+            break
+        n += 1
+    if bad:
+        res.add(Finding(rule, fn, "search", "the search for the insertion position " + bad + ": the list is no longer sorted by start, overlapping ranges are not merged and are deleted twice", loc=T.loc(inner[0])))
+    else:
+        res.holds(rule, fn, "search", "%d paths of one search step" % n)
+    ins = sorted(T.render(x["args"][0]) for x in T.nodes(b["tree"], "mcall") if x["name"] == "insert" and len(x["args"]) == 2)
+    ok_sets = [["(cursor + 1)", "0"], ["cursor.map_or(0, |c| (c + 1))"], ["cursor.map_or(0, |cursor| (cursor + 1))"], ["cursor.map(|c| (c + 1)).unwrap_or(0)"]]
+    norm = [re.sub(r"\b[a-z_]+\b", lambda m_: "cursor" if m_.group(0) not in ("map_or", "map", "unwrap_or", "c") else m_.group(0), i_) for i_ in ins]
+    if ins in ok_sets or norm in ok_sets:
+        res.holds(rule, fn, "insert-behind", ", ".join(ins))
+    else:
+        res.add(Finding(rule, fn, "insert-behind", "the new range is inserted at %s, not directly behind the entry the search stopped at (index + 1, or 0)" % ins, loc=loc))
+    pops = [T.render(x) for x in T.nodes(b["tree"], "mcall") if x["name"] in ("pop", "remove", "swap_remove", "drain") and "new" in T.render(x["recv"])]
+    if pops and all(p_.endswith(".pop()") for p_ in pops):
+        res.holds(rule, fn, "taken-from-the-back")
+    else:
+        res.add(Finding(rule, fn, "taken-from-the-back", "the new ranges are taken by %s, not from the back (the search position is carried from one new range to the next, "
+                        "which is only right for descending starts)" % pops, loc=loc))
 
 
 def halves_disjoint(ctx, res, rule):
@@ -358,6 +497,33 @@ def halves_disjoint(ctx, res, rule):
             break
         elif any(isinstance(x, A.Tuple) for x in acc.items):
             fused += 1
+            # one range from the head's start to the tail's end swallows the body: only when head and tail have met - the
+            # head ends at or behind the tail's start, or one child was absorbed by both (the two absorb counts cross)
+            one = [x for x in acc.items if isinstance(x, A.Tuple)]
+            rng = one[0].items[0] if len(one) == 1 and len(one[0].items) == 2 else None
+            if o["decisions"].get("is_some(tree.range.1)") is True and isinstance(rng, A.Struct) and set(rng.fields) == {"start", "end"}:
+                hs, te = A.show(rng.fields["start"]), A.show(rng.fields["end"])
+                h, t_ = hs[:-len(".start")] if hs.endswith(".start") else None, te[:-len(".end")] if te.endswith(".end") else None
+                met = False
+                for k, v in o["decisions"].items():
+                    if h and t_ and k == "ord(%s.end, %s.start)" % (h, t_) and v in ("=", ">"):
+                        met = True
+                    if h and t_ and k == "ord(%s.start, %s.end)" % (t_, h) and v in ("=", "<"):
+                        met = True
+                    m_ = re.match(r"^ord\((.*)\)$", k)
+                    if m_ and "merge_child_markers(" in k and ".len() - " in k:
+                        # ord(end cursor, start cursor): the end cursor is `len - absorbed from the back`
+                        a_, b_ = _split_top(m_.group(1))
+                        if ".len() - " in a_ and ".len() - " not in b_ and v == "<":
+                            met = True
+                        if ".len() - " in b_ and ".len() - " not in a_ and v == ">":
+                            met = True
+                if not met:
+                    bad += 1
+                    res.add(Finding(rule, fn, "fused-only-when-met", "head and tail of an unwrapped element are replaced by one range from the head's start to the tail's end on a path that "
+                                    "does not establish that they have met (head.end >= tail.start, or a child absorbed by both): the body between them is deleted "
+                                    "(decisions: %s)" % list(o["decisions"].values()), loc=loc))
+                    break
     if not bad:
         if pairs:
             res.holds(rule, fn, "halves-disjoint", "%d pair path(s), each under head.end <= tail.start; %d path(s) push one (fused / un-paired) range" % (pairs, fused))
